@@ -392,4 +392,85 @@ example : (runPlain .replace exCfg none exTBad [exMod]).out = .errModule ∧
     (runPlain .replace exCfg none exTBad [exMod]).tgt.get [104] = some { val := .old 0, exp := 777 } := by decide
 example : (runPlain .replace exCfg none exT [exMod]).tgt.get [104] = some { val := .restored [4, 3], exp := 5000 } := by decide
 
+/-! ## the clocks threaded through the chunks: every chunk has its own tool clock and target clock
+
+  `chunksAt` replays the chunks of one key's value, chunk j with the tool's clock `c.1` (its `time.Now()` when it computes
+  the TTL) and the target's clock `c.2` when it executes the chunk's requests; BEFORE each chunk the target drops the key if
+  its expiry has been reached (`expireIf`: Redis's lazy expiry; the target double with a running clock). -/
+
+def expireIf (tnow : Nat) (o : Option Obj) : Option Obj :=
+  match o with
+  | some x => if x.exp ≠ 0 ∧ x.exp ≤ tnow then none else some x
+  | none => none
+
+def chunksAt (cfg : Cfg) (k : Bytes) : Option Obj → List (Entry × Nat × Nat) → Option Obj
+  | o, [] => o
+  | o, (e, cnow, tnow) :: rest =>
+    chunksAt cfg k (objSteps k tnow (expireIf tnow o) (expand { cfg with now := cnow } e)) rest
+
+/-- ONE chunk with an expiry, whatever it finds (the key as earlier chunks left it, or NOTHING because the key expired
+    in between) and whatever the two clocks say: afterwards the key exists and carries an expiry in the target's future.
+    This is the invariant that "PEXPIRE only on the first bin" breaks: a later chunk then re-creates an expired key
+    WITHOUT expiry. -/
+theorem chunk_never_persistent (cfg : Cfg) (k : Bytes) (o : Option Obj) (e : Entry) (cnow tnow : Nat)
+    (hk : e.key = k) (hc : ∀ c ∈ e.cmds, cmdKey c = k) (hne : e.cmds ≠ []) (h0 : e.expireAt ≠ 0) :
+    ∃ x, objSteps k tnow o (expand { cfg with now := cnow } e) = some x ∧ x.exp ≠ 0 ∧ tnow < x.exp := by
+  unfold expand
+  rw [objSteps_append]
+  have hdata : ∃ y, objSteps k tnow o (e.cmds.map Req.data) = some y := by
+    have : ∀ (cs : List Cmd) (o : Option Obj), cs ≠ [] ∨ o.isSome → (∀ c ∈ cs, cmdKey c = k) →
+        ∃ y, objSteps k tnow o (cs.map Req.data) = some y := by
+      intro cs
+      induction cs with
+      | nil => intro o h _; rcases h with h | h
+               · exact absurd rfl h
+               · cases o with
+                 | none => cases h
+                 | some y => exact ⟨y, rfl⟩
+      | cons c cs ih =>
+        intro o _ hcs
+        simp only [List.map_cons, objSteps, List.foldl_cons]
+        have hck := hcs c (List.mem_cons_self ..)
+        have hstep : ∃ z, objStep k tnow o (.data c) = some z := by
+          simp only [objStep, reqKey, hck, if_true, objEffect, dataStep]
+          cases o with
+          | none => exact ⟨_, rfl⟩
+          | some x => cases hv : x.val <;> simp [hv]
+        obtain ⟨z, hz⟩ := hstep
+        rw [hz]
+        exact ih (some z) (Or.inr rfl) (fun c' h' => hcs c' (List.mem_cons_of_mem _ h'))
+    exact this e.cmds o (Or.inl hne) hc
+  obtain ⟨y, hy⟩ := hdata
+  rw [hy]
+  simp only [h0, ne_eq, not_false_eq_true, if_true, objSteps, List.foldl_cons, List.foldl_nil, objStep, reqKey, hk, objEffect,
+    Option.map_some]
+  have := ttlMs_pos (now := cnow) h0
+  exact ⟨_, rfl, by simp; omega, by simp; omega⟩
+
+/-- the chunks of a value whose every chunk carries the expiry (the loader after D8: `Value.exp` with the right
+    disjunct), each at its own pair of clocks, with the key possibly EXPIRING on the target between any two of them:
+    the key is never left persistent -/
+theorem chunks_never_persistent (cfg : Cfg) (k : Bytes) (o : Option Obj) (cs : List (Entry × Nat × Nat))
+    (hne : cs ≠ []) (h : ∀ c ∈ cs, c.1.key = k ∧ (∀ x ∈ c.1.cmds, cmdKey x = k) ∧ c.1.cmds ≠ [] ∧ c.1.expireAt ≠ 0) :
+    ∃ x, chunksAt cfg k o cs = some x ∧ x.exp ≠ 0 := by
+  induction cs generalizing o with
+  | nil => exact absurd rfl hne
+  | cons c rest ih =>
+    obtain ⟨e, cnow, tnow⟩ := c
+    have hc := h (e, cnow, tnow) (List.mem_cons_self ..)
+    obtain ⟨x, hx, hx0, _⟩ := chunk_never_persistent cfg k (expireIf tnow o) e cnow tnow hc.1 hc.2.1 hc.2.2.1 hc.2.2.2
+    simp only [chunksAt, hx]
+    cases rest with
+    | nil => exact ⟨x, rfl, hx0⟩
+    | cons c2 r2 => exact ih (some x) (by simp) (fun c' h' => h c' (List.mem_cons_of_mem _ h'))
+
+-- the key expires between chunk 1 (tool 1000 / target 1000, expiry 1002) and chunk 2 (1003 / 1003): chunk 2 finds nothing,
+-- re-creates the key and gives it "1 ms"
+def exTickE (first : Bool) (f : UInt8) : Entry := { exE0 with first := first, expireAt := 1002, cmds := [exCmd f f] }
+example : chunksAt exCfg [104] none [(exTickE true 49, 1000, 1000), (exTickE false 50, 1003, 1003)] =
+    some { val := .native [exCmd 50 50], exp := 1004 } := by decide
+-- with the expiry on the first chunk only (C03's round-8 seed) the re-created key would be persistent
+example : chunksAt exCfg [104] none [(exTickE true 49, 1000, 1000), ({ exTickE false 50 with expireAt := 0 }, 1003, 1003)] =
+    some { val := .native [exCmd 50 50], exp := 0 } := by decide
+
 end GunYu.Props.C20
